@@ -89,7 +89,87 @@ fn prop_generated(t: &mut Tape, st: &mut Stats) -> Result<(), Failure> {
         }
         v => return Err(harness_fault(format!("reference decoder does not accept a generated document: {}\n---\n{}\n---", v.short(), r.text))),
     }
-    check_decode(&r.text, &r.expected, "generated")
+    check_decode(&r.text, &r.expected, "generated")?;
+    // a number the document says but no i64 / f64 can hold: whatever would be decoded for it is not
+    // what the document says, so such a document must not be accepted at all
+    if t.chance(1, 8) {
+        let lit = out_of_range_literal(t);
+        let text = format!("zz-out-of-range = {lit}\n{}", r.text);
+        st.class("out-of-range-literal");
+        for (who, accepted) in [
+            ("DocumentMut", text.parse::<toml_edit::DocumentMut>().is_ok()),
+            ("ImDocument", toml_edit::ImDocument::parse(text.as_str()).is_ok()),
+            ("toml::Table", text.parse::<toml::Table>().is_ok()),
+            ("toml_edit::de::from_str", toml_edit::de::from_str::<toml::Value>(&text).is_ok()),
+        ] {
+            if accepted {
+                let shown = text.parse::<toml::Table>().ok().and_then(|tb| tb.get("zz-out-of-range").map(|v| v.to_string())).unwrap_or_default();
+                return Err(Failure::new("out-of-range", format!("{who} accepts the literal {lit}, which no 64-bit integer / double holds (decoded as {shown})"), json!({"text": text, "literal": lit})));
+            }
+        }
+    }
+    Ok(())
+}
+
+/// an integer literal beyond the signed 64-bit range (any base, signs, underscores, leading zeros
+/// where the grammar allows them) or a decimal float beyond the range of a double
+fn out_of_range_literal(t: &mut Tape) -> String {
+    fn digits(mut v: u128, base: u32) -> String {
+        let mut s = String::new();
+        loop {
+            s.push(std::char::from_digit((v % base as u128) as u32, base).unwrap());
+            v /= base as u128;
+            if v == 0 {
+                break;
+            }
+        }
+        s.chars().rev().collect()
+    }
+    fn group(d: &str, t: &mut Tape) -> String {
+        // underscores between digits
+        let mut out = String::new();
+        for (i, c) in d.chars().enumerate() {
+            if i > 0 && t.chance(1, 6) {
+                out.push('_');
+            }
+            out.push(c);
+        }
+        out
+    }
+    let two63 = 1u128 << 63;
+    let mag: u128 = match t.below(6) {
+        0 => two63 + t.below(4) as u128,
+        1 => (1u128 << 64) - 1 - t.below(4) as u128,
+        2 => (1u128 << 64) + t.below(4) as u128,
+        3 => two63 + (t.u64() as u128 % two63),
+        4 => u128::MAX - t.below(4) as u128,
+        _ => 10u128.pow(19 + t.below(15) as u32) + t.below(10) as u128,
+    };
+    match t.below(5) {
+        0 => {
+            let d = digits(mag, 10);
+            format!("{}{}", ["", "+"][t.below(2)], if t.chance(1, 2) { group(&d, t) } else { d })
+        }
+        1 => {
+            // negative: anything below -2^63
+            let d = digits(mag.max(two63 + 1), 10);
+            format!("-{}", if t.chance(1, 2) { group(&d, t) } else { d })
+        }
+        2 | 3 => {
+            let (pre, base) = *t.pick(&[("0x", 16u32), ("0o", 8), ("0b", 2)]);
+            let mut d = digits(mag, base);
+            if base == 16 && t.chance(1, 2) {
+                d = d.to_uppercase();
+            }
+            let pad = "0".repeat(t.below(4));
+            let d = format!("{pad}{d}");
+            format!("{pre}{}", if t.chance(1, 2) { group(&d, t) } else { d })
+        }
+        _ => {
+            let f = *t.pick(&["1e309", "1.7976931348623159e308", "2e308", "1e400", "9e99999", "1_0e3_08", "0.1e310", "17976931348623159e292"]);
+            format!("{}{f}", ["", "+", "-"][t.below(3)])
+        }
+    }
 }
 
 pub fn finish_run(rep: &mut Report, sub: &str, run: TapeRun) {
@@ -103,7 +183,7 @@ pub fn finish_run(rep: &mut Report, sub: &str, run: TapeRun) {
 
 pub fn run(args: Args) -> ! {
     let mut rep = Report::new("C02", args.tier, args.seed);
-    rep.rule = "tree-first documents: a generated tree of TOML values rendered in a generated spelling (string kinds/escapes, bases, underscores, exponent forms, date-time delimiters, header/dotted/inline/array-of-tables layouts, section orders, whitespace/comments); expected tree known by construction and compared exactly (float bits, key order) with ImDocument, DocumentMut, toml::Value, toml::Table, toml_edit::de::{from_str,from_slice}; plus the 191 valid toml-test fixtures against their expected JSON. non-trivial = the document has at least one non-canonical spelling; distinct by text".into();
+    rep.rule = "tree-first documents: a generated tree of TOML values rendered in a generated spelling (string kinds/escapes, bases, underscores, exponent forms, date-time delimiters, header/dotted/inline/array-of-tables layouts, section orders, whitespace/comments); expected tree known by construction and compared exactly (float bits, key order) with ImDocument, DocumentMut, toml::Value, toml::Table, toml_edit::de::{from_str,from_slice}; plus the 191 valid toml-test fixtures against their expected JSON; one generated document in eight also gets a number no i64 / f64 holds (four bases, signs, underscores, padding; overflowing decimal floats) and must then be refused by every entry point. non-trivial = the document has at least one non-canonical spelling; distinct by text".into();
     rep.assumptions = vec![
         "expected trees are built by the harness' renderer; the reference decoder must agree with it (exit 2 otherwise)".into(),
         "float spellings are exact decimal re-spellings of std's shortest round-trip digits".into(),
